@@ -6,10 +6,10 @@ set -u
 P=$1; D=$2; shift 2
 CHECKS=${@:-$P}
 export GOFLAGS=-mod=mod GOPROXY=off; unset GOTOOLCHAIN GOSUMDB
-mkdir -p /tmp/seedwork-$P   # the demos create their scratch modules below this directory
+mkdir -p /tmp/seedwork-$P /tmp/seedwork-${P}r2 /tmp/seedwork-${P}r3   # the demos create their scratch modules below these directories
 WT=$(mktemp -d /tmp/seedwt-XXXXXX); rmdir $WT
 git -C /repo worktree add -q $WT HEAD || exit 2
-trap 'git -C /repo worktree remove --force $WT; rm -rf $WT /tmp/seedwork-$P' EXIT
+trap 'git -C /repo worktree remove --force $WT; rm -rf $WT /tmp/seedwork-$P /tmp/seedwork-${P}r2 /tmp/seedwork-${P}r3' EXIT
 echo "== demo on original:"; (bash $D/demo.sh $WT > /tmp/seedcheck-demo0.log 2>&1; echo "exit $?")
 git -C $WT apply $D/patch.diff 2>/dev/null || git -C $WT apply -3 $D/patch.diff || { echo "patch does not apply"; exit 2; }
 echo "== build + tests with the change:"; (cd $WT && go build ./... && go test -vet=off -count=1 ./... 2>&1 | grep -v '^ok\|no test files' ; echo "tests exit ${PIPESTATUS[0]}")
